@@ -80,7 +80,7 @@ CONFIG = {
             "thorough": {"shards": 16, "n": 20000, "scale": 16, "arg": 10}},
     "C07": {"quick": {"shards": 8, "n": 2500, "scale": 8, "arg": 10},
             "thorough": {"shards": 16, "n": 20000, "scale": 10, "arg": 24}},
-    "C17": {"quick": {"shards": 8, "n": 4000, "scale": 8, "arg": 9},
+    "C17": {"enum": True, "quick": {"shards": 8, "n": 4000, "scale": 8, "arg": 9},
             "thorough": {"shards": 16, "n": 40000, "scale": 12, "arg": 24}},
 }
 
